@@ -159,6 +159,20 @@ def check_cleanup(repo, res, m, cname):
             o = [s for s in st.orelse if isinstance(s, ast.Assign)]
             if b and o and isinstance(o[0].value, ast.Name) and o[0].value.id == selfn and isinstance(b[0].value, ast.Call) and getattr(b[0].value.func, "attr", None) == "copy":
                 work = b[0].targets[0].id
+    if work is None:
+        # conditional-expression form:  _H = self if in_place else self.copy()
+        for st in own_statements(m.node):
+            if isinstance(st, ast.Assign) and isinstance(st.targets[0], ast.Name) and isinstance(st.value, ast.IfExp):
+                v = st.value
+                def is_self(e):
+                    return isinstance(e, ast.Name) and e.id == selfn
+                def is_copy(e):
+                    return isinstance(e, ast.Call) and getattr(e.func, "attr", None) == "copy" and isinstance(e.func.value, ast.Name) and e.func.value.id == selfn
+                t = v.test
+                if isinstance(t, ast.Name) and t.id == "in_place" and is_self(v.body) and is_copy(v.orelse):
+                    work = st.targets[0].id
+                if isinstance(t, ast.UnaryOp) and isinstance(t.op, ast.Not) and isinstance(t.operand, ast.Name) and t.operand.id == "in_place" and is_copy(v.body) and is_self(v.orelse):
+                    work = st.targets[0].id
     ok = work is not None
     res.inst("Q-COPY", f"{m.qualname}: works on self when in_place else on self.copy()", ok)
     if not ok:
@@ -202,6 +216,13 @@ def check_relabel(repo, res):
                 want = "num_nodes" if z.args[0].attr == "nodes" else "num_edges"
                 good = isinstance(rng, ast.Attribute) and rng.attr == want or (isinstance(rng, ast.Call) and getattr(rng.func, "id", None) == "len")
                 maps[z.args[0].attr] = (s, s.targets[0].id, good)
+        # {n: i for i, n in enumerate(net.nodes)}
+        if isinstance(s, ast.Assign) and isinstance(s.targets[0], ast.Name) and isinstance(s.value, ast.DictComp):
+            g = s.value.generators[0]
+            if isinstance(g.iter, ast.Call) and getattr(g.iter.func, "id", None) == "enumerate" and len(g.iter.args) == 1 and isinstance(g.iter.args[0], ast.Attribute) and g.iter.args[0].attr in ("nodes", "edges") and isinstance(g.target, ast.Tuple) and len(g.target.elts) == 2 and not g.ifs:
+                i, n = g.target.elts
+                if isinstance(i, ast.Name) and isinstance(n, ast.Name) and isinstance(s.value.key, ast.Name) and s.value.key.id == n.id and isinstance(s.value.value, ast.Name) and s.value.value.id == i.id:
+                    maps[g.iter.args[0].attr] = (s, s.targets[0].id, True)
     for which in ("nodes", "edges"):
         ok = which in maps and maps[which][2]
         res.inst("Q-LABEL", f"convert_labels_to_integers: {which} map is dict(zip(net.{which}, range(n)))", ok)
